@@ -75,6 +75,7 @@ structure SendHalf where
   finSent : Bool := false  -- a FIN-bearing frame was emitted (`DataSent`: `update_window` ignored)
   emitted : List (Nat × Nat) := []  -- ghost: every emitted range
   granted : Nat            -- ghost: largest limit the peer has granted (initial window, MAX_STREAM_DATA)
+  charged : Nat := 0       -- ghost: Σ of the amounts posted to the connection credit for this stream
 deriving Repr
 
 def SendHalf.init (w : Nat) : SendHalf := { maxData := w, granted := w }
@@ -92,7 +93,13 @@ def SendHalf.emit (h : SendHalf) (a b : Nat) (fin : Bool) (avail : Nat) : Option
   if a ≤ b ∧ b ≤ h.maxData ∧ b ≤ h.written ∧ (fin → (h.finReq ∧ b = h.written)) then
     if a = h.sentHi ∧ a < b then
       if b - a ≤ avail then
-        some ({ h with sentHi := b, finSent := h.finSent || fin, emitted := h.emitted ++ [(a, b)] }, b - a)
+        let h' : SendHalf :=
+          { h with
+            sentHi := b
+            finSent := h.finSent || fin
+            emitted := h.emitted ++ [(a, b)]
+            charged := h.charged + (b - a) }
+        some (h', b - a)
       else none
     else if b ≤ h.sentHi then
       some ({ h with finSent := h.finSent || fin, emitted := h.emitted ++ [(a, b)] }, 0)
@@ -184,6 +191,44 @@ def RecvHalf.read (h : RecvHalf) (cap : Nat) : RecvHalf × ReadObs :=
   | .done =>
     let (b, out) := RecvBuf.tryRead h.buf cap
     ({ h with buf := b }, .read out.length none)
+
+/-! ## operation languages (the quantifier domains of the stream-level theorems) -/
+
+inductive SOp where
+  | write (n : Nat)
+  | fin
+  | msd (m : Nat)                                   -- MAX_STREAM_DATA received
+  | emit (a b : Nat) (fin : Bool) (avail : Nat)     -- a frame the implementation chose to emit
+deriving Repr
+
+/-- A frame that is not a legal emission is not a step of the specification: state unchanged
+(the driver reports it as `notok`). -/
+def SendHalf.step (h : SendHalf) : SOp → SendHalf
+  | .write n => if h.finReq then h else { h with written := h.written + n }
+  | .fin => { h with finReq := true }
+  | .msd m => h.updateWindow m
+  | .emit a b fin avail =>
+    match h.emit a b fin avail with
+    | some (h', _) => h'
+    | none => h
+
+def SendHalf.run (w : Nat) (ops : List SOp) : SendHalf := ops.foldl SendHalf.step (SendHalf.init w)
+
+/-- The limit the peer has granted after a history: initial window and every MAX_STREAM_DATA. -/
+def grantedOf (w : Nat) (ops : List SOp) : Nat :=
+  ops.foldl (fun g op => match op with | .msd m => max g m | _ => g) w
+
+inductive ROp where
+  | rx (off len : Nat) (fin : Bool)
+  | read (cap : Nat)
+deriving Repr
+
+def RecvHalf.step (fixed : Bool) (h : RecvHalf) : ROp → RecvHalf
+  | .rx off len fin => (h.rx fixed off len fin).1
+  | .read cap => (h.read cap).1
+
+def RecvHalf.run (fixed : Bool) (w : Nat) (ops : List ROp) : RecvHalf :=
+  ops.foldl (RecvHalf.step fixed) (RecvHalf.mk0 w)
 
 /-! ## one packet-assembly step against the connection controller -/
 
